@@ -164,8 +164,10 @@ class Replayer:
     # ---- normalize / denormalize on the last batch plus an integer leaf
     # (the last batch and fresh probe rows: on its own data a constant column has x - mean = 0, which hides the divisor)
     last = np.concatenate([last, last + 0.375, last * 1.5 - 2.0], axis=0)
-    data = {'f': self.nest(kind, last), 'n': jnp.asarray(np.arange(len(last), dtype=np.int32) * 7 - 3)}
-    ms = rs.NestedMeanStd(mean={'f': state.mean, 'n': jnp.zeros(())}, std={'f': state.std, 'n': jnp.ones(()) * 3})
+    data = {'f': self.nest(kind, last), 'n': jnp.asarray(np.arange(len(last), dtype=np.int32) * 7 - 3),
+            'b': jnp.asarray(np.arange(len(last)) % 3 == 0), 'u': jnp.asarray((np.arange(len(last)) % 5).astype(np.uint8))}
+    ms = rs.NestedMeanStd(mean={'f': state.mean, 'n': jnp.zeros(()), 'b': jnp.ones(()) * 0.5, 'u': jnp.ones(())},
+                          std={'f': state.std, 'n': jnp.ones(()) * 3, 'b': jnp.ones(()) * 2, 'u': jnp.ones(()) * 2})
     norm = rs.normalize(data, ms)
     back = rs.denormalize(norm, ms)
     nf = self.flat(kind, norm['f'], F)
@@ -177,9 +179,10 @@ class Replayer:
         bad.append(f'normalize[{f}] {nf[:, f].tolist()} != {want.tolist()}')
       if np.max(np.abs(bf[:, f] - last[:, f])) > 1e-9 * (1 + np.max(np.abs(last[:, f]))):
         bad.append(f'denormalize(normalize(x))[{f}] {bf[:, f].tolist()} != {last[:, f].tolist()}')
-    for nm, leaf in (('normalize', norm['n']), ('denormalize', back['n'])):
-      if leaf.dtype != jnp.int32 or not np.array_equal(np.asarray(leaf), np.asarray(data['n'])):
-        bad.append(f'{nm} changed an integer leaf: {np.asarray(leaf).tolist()} dtype {leaf.dtype}')
+    for key in ('n', 'b', 'u'):      # non-float leaves (integer ids, boolean flags, bytes) pass through untouched
+      for nm, leaf in (('normalize', norm[key]), ('denormalize', back[key])):
+        if leaf.dtype != data[key].dtype or not np.array_equal(np.asarray(leaf), np.asarray(data[key])):
+          bad.append(f'{nm} changed a {data[key].dtype} leaf: {np.asarray(leaf).tolist()[:6]} dtype {leaf.dtype}')
     nontrivial = len(hist) > 1 or any(s['w'] != 1 for _, b in hist for s in b)
     ctx.case(key=(label, str(hist)), nontrivial=nontrivial,
              sample={**case, 'expected': {'count': st['count'], 'mean': [str(fr(x)) for x in st['mean']],
